@@ -95,10 +95,64 @@ def radix_and_exponent(rep, F, rule='R-TABLE'):
 
 
 
+TEXT_PARSER = re.compile(r'(BigInt|BigUint)::(parse_bytes|from_str_radix|from_radix_[bl]e)$|num_traits::Num::from_str_radix$|<num_bigint::(BigInt|BigUint) as .*(FromStr>::from_str|Num>::from_str_radix)$|str::FromStr::from_str$|str::<impl str>::parse$|core::num::dec2flt|f(32|64)::from_str')
+
+
+def gateway(rep, F, rule='GATEWAY'):
+    """who-may-call: on the call graph of the parse entry points the only body that hands text to an integer/float
+    text parser is <BigDecimal as Num>::from_str_radix (whose Ok returns lie on the radix == 10 edge); an entry point
+    that reaches such a parser without going through it bypasses the radix check and the decimal grammar"""
+    ents = common.parse_entries(F)
+    gate = [f for f in ents if f.item == 'from_str_radix']
+    n = 0
+    if not gate:
+        rep.violation(rule, 'from_str_radix:missing', 'anchor <BigDecimal as Num>::from_str_radix not found (fail closed)')
+        return 0
+    gate = gate[0]
+    cg = F.callgraph()
+    for e in ents:
+        if e is gate:
+            continue
+        # bodies reachable from e without entering the gateway
+        seen, st = set(), [e.name]
+        while st:
+            x = st.pop()
+            if x in seen or x not in cg or x == gate.name:
+                continue
+            seen.add(x)
+            st.extend(cg[x])
+        n += 1
+        hits = []
+        reaches_gate = False
+        for nm in sorted(seen):
+            f = F.fns[nm]
+            for bid, t in f.calls():
+                d = (t['callee'].get('resolved') or '') + ' | ' + (t['callee'].get('def') or '')
+                if gate.name in F.call_targets(f, t):
+                    reaches_gate = True
+                    continue
+                res = t['callee'].get('resolved') or t['callee'].get('def') or ''
+                if TEXT_PARSER.search(res) or TEXT_PARSER.search(t['callee'].get('def') or ''):
+                    # <BigDecimal as FromStr>::from_str / str::parse::<BigDecimal> resolve to local bodies and are followed instead
+                    if F.call_targets(f, t):
+                        continue
+                    hits.append((f, t, res))
+        key = e.key + ':only-through-from_str_radix'
+        if hits:
+            f, t, res = hits[0]
+            rep.violation(rule, key, '%s hands its input to the text parser %s without passing through from_str_radix: the radix check and the decimal grammar are bypassed' % (f.name, res.split(' as ')[0][-60:]), f.where(t['loc']['line']))
+        elif not reaches_gate:
+            rep.undecided(rule, key, 'entry point no longer reaches from_str_radix', e.where())
+        else:
+            rep.ok(rule, key, '%d bodies reachable outside the gateway; none calls an integer/float text parser' % len(seen), e.where())
+    return n
+
+
 def run(ctx):
     rep = ctx.rep
     rep.explanation = ('Static MIR analysis. R-PANIC with entries Num::from_str_radix, FromStr::from_str, parse_bytes (debug-profile facts).  '
                        'R-TABLE on from_str_radix: every Ok(..) return lies on the radix == 10 edge, and the scale handed to the constructor is computed through checked operations and widening casts only. '
+                       'GATEWAY (who-may-call): FromStr::from_str and parse_bytes reach an integer/float text parser only through from_str_radix, so the radix check cannot be bypassed. '
                        'Does NOT decide the accepted grammar or the denoted value.')
     F = ctx.facts('default', 'dbg')
     ents = common.parse_entries(F)
@@ -109,5 +163,7 @@ def run(ctx):
     Fr = ctx.facts('default', 'rel')
     n2 = radix_and_exponent(rep, Fr)
     rep.floor('radix/exponent clauses', n2, 2)
+    n3 = gateway(rep, Fr)
+    rep.floor('parse entry points checked against the gateway', n3, 2)
     rep.trust(common.TRUST_STD)
     rep.trust('BigInt::from_str_radix panics only for a radix outside 2..=36')
